@@ -275,14 +275,24 @@ pub fn long_len(thorough: bool) -> BoxedStrategy<usize> {
 }
 
 /// a sequence of exactly `n` symbols in any representation
+/// content of the one-case-per-length families: mostly mixed symbols (a uniform sequence hides most
+/// packing mistakes), some run-structured and uniform ones
+pub fn codes_n_mixed(m: &'static Model, n: usize) -> BoxedStrategy<Vec<u8>> {
+    prop_oneof![
+        10 => vec(code(m), n),
+        3 => runs(m, n),
+        2 => codes_n(m, n),
+    ]
+    .boxed()
+}
 pub fn seq_spec_n(id: CodecId, n: usize) -> BoxedStrategy<SeqSpec> {
     let m = id.model();
-    (codes_n(m, n), repr(m)).prop_map(|(codes, repr)| SeqSpec { codes, repr }).boxed()
+    (codes_n_mixed(m, n), repr(m)).prop_map(|(codes, repr)| SeqSpec { codes, repr }).boxed()
 }
 
 pub fn owned_spec_n(id: CodecId, n: usize) -> BoxedStrategy<SeqSpec> {
     let m = id.model();
-    (codes_n(m, n), owned_repr(m)).prop_map(|(codes, repr)| SeqSpec { codes, repr }).boxed()
+    (codes_n_mixed(m, n), owned_repr(m)).prop_map(|(codes, repr)| SeqSpec { codes, repr }).boxed()
 }
 
 pub fn codes_long(m: &'static Model, thorough: bool) -> BoxedStrategy<Vec<u8>> {
